@@ -20,9 +20,12 @@ package main
 
 import (
 	"encoding/json"
+	"flag"
 	"fmt"
 	"math"
 	"math/big"
+	"os"
+	"path/filepath"
 	"strconv"
 
 	zygo "github.com/glycerine/zygomys/v9/zygo"
@@ -64,6 +67,23 @@ func (d *codecDriver) prCase(id string, g *gval, lab string) map[string]any {
 		c["ev"] = cprojOutcome(d.env, evalSafe(d.env, evalWrapped))
 	} else {
 		c["ev"] = []any{"skipped"}
+	}
+	// save / source through a file: only a hash is written as one datum by `save`
+	c["svj"] = false
+	c["sv"] = []any{"skipped"}
+	if c["evj"].(bool) && g.K == "hash" {
+		path := filepath.Join(os.TempDir(), fmt.Sprintf("zv-printread-%d.zy", os.Getpid()))
+		os.Remove(path)
+		d.reset()
+		d.env.AddGlobal("v", v)
+		d.env.AddGlobal("path", &zygo.SexpStr{S: path})
+		if o := evalSafe(d.env, "(save v path)\n"); o.Kind == "val" || o.Kind == "nilres" {
+			d.reset()
+			d.env.AddGlobal("path", &zygo.SexpStr{S: path})
+			c["svj"] = true
+			c["sv"] = cprojOutcome(d.env, evalSafe(d.env, "(source path)\n"))
+		}
+		os.Remove(path)
 	}
 	return c
 }
@@ -177,7 +197,11 @@ var litDirected = []string{
 
 func init() {
 	register("printread", "C12: print/read round trips and numeric literal spellings", func(args []string) int {
-		c := commonFlags("printread", args, nil)
+		part, nparts := 0, 1
+		c := commonFlags("printread", args, func(fs *flag.FlagSet) {
+			fs.IntVar(&part, "part", 0, "produce only the cases of this part (the check validates a large run in parts)")
+			fs.IntVar(&nparts, "nparts", 1, "number of parts")
+		})
 		d := newCodecDriver()
 		w := newWriter(c.out)
 		defer w.close()
@@ -185,8 +209,9 @@ func init() {
 			return printreadReplay(d, c, w)
 		}
 		idx := 0
+		mine := func(i int) bool { return i%nparts == part && c.mine(i/nparts) }
 		emit := func(prefix string, g *gval, lab string) {
-			if c.mine(idx) {
+			if mine(idx) {
 				w.write(d.prCase(fmt.Sprintf("%s%d", prefix, idx), g, lab))
 			}
 			idx++
@@ -207,7 +232,7 @@ func init() {
 					if ctx == "chr" && cls == "invalid" {
 						continue
 					}
-					if c.mine(idx) {
+					if mine(idx) {
 						w.write(d.prClsCase(fmt.Sprintf("c%d", idx), cls, m, ctx))
 					}
 					idx++
@@ -307,7 +332,7 @@ func init() {
 		// (d) seeded random nested values to depth 3
 		n := c.n
 		if n == 0 {
-			n = 3000
+			n = 2000
 			if c.thorough() {
 				n = 60000
 			}
@@ -326,7 +351,7 @@ func init() {
 		// (e) numeric literal spellings: every string over the alphabet up to a
 		// length bound, seeded longer ones, and the directed list
 		lit := func(sp string) {
-			if c.mine(idx) {
+			if mine(idx) {
 				w.write(d.litCase(fmt.Sprintf("l%d", idx), sp))
 			}
 			idx++
@@ -335,7 +360,7 @@ func init() {
 			lit(sp)
 		}
 		full := 3
-		nlong := 4000
+		nlong := 3000
 		if c.thorough() {
 			full, nlong = 4, 40000
 		}
